@@ -743,6 +743,29 @@ func c16LockSymlink(w *World, r *Report) {
 		}
 	}
 	if fn == nil {
+		// folded into its caller: the function that marshals a *chart.Lock and writes a file
+		for _, f := range w.FuncsIn("pkg/downloader") {
+			marshals, writes := false, false
+			for _, c := range callInstrs(f) {
+				cal, _ := calleeOf(c.Common())
+				if cal == nil {
+					continue
+				}
+				if ok, _ := isFSWrite(cal); ok {
+					writes = true
+				}
+				if cal.Name() == "Marshal" && len(c.Common().Args) > 0 {
+					if mi, ok := c.Common().Args[0].(*ssa.MakeInterface); ok && isNamedPtr(mi.X.Type(), helmMod+"/pkg/chart/v2", "Lock") {
+						marshals = true
+					}
+				}
+			}
+			if marshals && writes {
+				fn = f
+			}
+		}
+	}
+	if fn == nil {
 		r.Unk("C16/LOCK-SYMLINK", "anchor", "-", "no function of pkg/downloader writes a chart.Lock")
 		return
 	}
